@@ -235,7 +235,16 @@ class AstMap:
         Returns:
             bool: True if number of conflicts is greater than 0
         """
-        return len(self.conflict_keys) > 0
+        if len(self.conflict_keys) > 0:
+            return True
+        # The same placeholder can be recorded as a variable and as a called function
+        for key in self.symbol_table:
+            if key in self.func_table:
+                names = {symbol.id for symbol in self.symbol_table[key]}
+                names.update(symbol.id for symbol in self.func_table[key])
+                if len(names) > 1:
+                    return True
+        return False
 
     def new_merged_map(self, other):
         """
